@@ -43,3 +43,63 @@ Theorem C20_deterministic :
       fst (limit_results A provs_of sample shuffle false (Some n) ars sums) = firstn n ars.
 Proof. intros A provs_of sample shuffle _ _. exact (c20_deterministic A provs_of sample shuffle). Qed.
 Print Assumptions C20_deterministic.
+
+(* ---------------------------------------------------------------------------------------------------------------
+   For the CODE MODEL (Proofs/C20c.v).  candidates_limited v q d is list_allocation_candidates with the limit of the query:
+   Candidates.limit_results (randomize_allocation_candidates = False) applied where the code applies it, to the allocation
+   requests and provider summaries of _get_by_requests BEFORE they are rendered for the microversion (raw_result), then
+   rendered.  `distinct` = pairwise same_creq-different (AllocationRequest.__eq__: resource requests and mappings). *)
+From PV Require Import Spec.CandSpec Proofs.C02m Proofs.C20c.
+
+(* limit=N (accepted from 1.16, N >= 1): the first min(N, M) of the M unlimited requests; pairwise distinct as requests
+   with their mappings, and as SHOWN from 1.34; every provider they name has its summary among the kept ones, which are
+   summaries of the unlimited answer.  Only hypothesis: unique provider uuids and root columns naming roots (rps_wf). *)
+Theorem C20_code_limit : forall v q d a s n,
+  rps_wf d -> candidates v q d = COk a s -> qy_limit q = Some n ->
+  16 <= v /\ 1 <= n /\
+  exists kept sums', candidates_limited v q d = COk kept sums' /\
+    kept = firstn (Z.to_nat n) a /\ lenZ kept = Z.min n (lenZ a) /\ incl kept a /\
+    (exists kr, kept = map (creq_view v) kr /\ distinct kr) /\ (34 <= v -> distinct kept) /\
+    (forall c x, In c kept -> In x (cr_rrs c) ->
+       exists r, find_rp d (rr_rp x) = Some r /\ In (psum_view v q (summary_of d r)) sums') /\
+    incl sums' s.
+Proof. exact c20_code_limit. Qed.
+Print Assumptions C20_code_limit.
+
+(* ... in every state reached by any requests (no hypothesis left) *)
+Theorem C20_code_limit_reachable : forall cf l v q a s n,
+  candidates v q (run cf db0 l) = COk a s -> qy_limit q = Some n ->
+  exists kept sums', candidates_limited v q (run cf db0 l) = COk kept sums' /\
+    kept = firstn (Z.to_nat n) a /\ lenZ kept = Z.min n (lenZ a) /\ incl kept a /\
+    (34 <= v -> distinct kept) /\
+    (forall c x, In c kept -> In x (cr_rrs c) ->
+       exists r, find_rp (run cf db0 l) (rr_rp x) = Some r /\ In (psum_view v q (summary_of (run cf db0 l) r)) sums') /\
+    incl sums' s.
+Proof. exact c20_code_limit_reachable. Qed.
+Print Assumptions C20_code_limit_reachable.
+
+(* no limit, or a limit that does not bite: the answer is unchanged *)
+Theorem C20_code_unlimited : forall v q d a s,
+  candidates v q d = COk a s ->
+  (match qy_limit q with Some n => lenZ a <= n | None => True end) ->
+  candidates_limited v q d = COk a s.
+Proof. exact c20_code_unlimited. Qed.
+Print Assumptions C20_code_unlimited.
+
+(* the unlimited requests are pairwise distinct (the hypothesis NoDup ars of C20_limit, for the code model) *)
+Theorem C20_code_distinct : forall v q d a s, candidates v q d = COk a s ->
+  (exists ar, a = map (creq_view v) ar /\ distinct ar) /\ (34 <= v -> distinct a).
+Proof. exact c20_code_distinct. Qed.
+Print Assumptions C20_code_distinct.
+
+(* ... but below 1.34 the SHOWN requests need not be: two groups with the same class and amount swap their providers, the
+   two requests differ in their mappings only, which are not shown before 1.34 (reachable table; resources1=VCPU:2&
+   resources2=VCPU:2&group_policy=none at 1.33 lists {2: VCPU 2, 3: VCPU 2} twice) *)
+Theorem C20_shown_duplicates_below_134 :
+  (exists a s, candidates 33 twin_query C03c.nv_db = COk a s /\ lenZ a = 11 /\ ~ distinct a /\
+               nth 1 (map cr_rrs a) [] = [mkRreq 2 0 2; mkRreq 3 0 2] /\ nth 3 (map cr_rrs a) [] = [mkRreq 3 0 2; mkRreq 2 0 2] /\
+               map cr_maps a = repeat [] 11) /\
+  (exists a s, candidates 34 twin_query C03c.nv_db = COk a s /\ lenZ a = 11 /\ distinct a).
+Proof. exact c20c_shown_duplicates_below_134. Qed.
+Print Assumptions C20_shown_duplicates_below_134.
+
